@@ -323,7 +323,9 @@ fn run_one(prop: &mut dyn Prop, ctx: &mut Ctx, id: &str, phase: usize, idx: u64)
     match guarded(|| prop.run_case(ctx, phase, idx, &mut rng)) {
         Caught::Ok(()) => {}
         Caught::Panic { loc, msg } => {
-            if is_harness_location(&loc) {
+            if is_harness_location(&loc) || loc.starts_with("/rustc/") {
+                // a panic located in the standard library that reached the driver (not one of the guarded
+                // rateslib calls) cannot be attributed: inconclusive, never a violation
                 ctx.harness_error(format!("harness panicked at {} in phase {} idx {}: {}", loc, phase, idx, msg));
             } else {
                 // a panic escaped a rateslib call that the monitor did not expect to panic
